@@ -57,10 +57,17 @@ def gen_case(rng, idx: int, nt=(1, 6), nw=(0, 5), method=None) -> dict:
                 writes.append({"kind": kind, "id": None, "text": "", "end": "", "flush": rng.random() < 0.5})
                 continue
             pid += 1
+            if rng.random() < 0.015:
+                # more than 64 KiB of multi-byte text in one write (block-wise readers must not split a character)
+                ch = rng.choice(["é", "中", "😀"])
+                body = "x" * rng.randrange(0, 4) + ch * (70000 // len(ch.encode()) + rng.randrange(0, 50))
+                writes.append({"kind": kind, "id": pid, "text": f"@@{pid}@[{body}]@{pid}@@", "end": "\n", "flush": True})
+                continue
             end = rng.choice(["\n", "\n", "", "\r\n", "\r"]) if kind in ("print", "eprint") else rng.choice(["", "", "\n"])
             writes.append({"kind": kind, "id": pid, "text": f"@@{pid}@[{gen_body(rng)}]@{pid}@@", "end": end,
                            "flush": rng.random() < 0.5})
-        tasks.append({"name": f"task_t{t}", "writes": writes, "fail": rng.random() < 0.25})
+        # a quarter of the tasks end abnormally after writing: by an exception or by sys.exit()
+        tasks.append({"name": f"task_t{t}", "writes": writes, "fail": rng.choice([True, True, "exit"]) if rng.random() < 0.25 else False})
     return {"idx": idx, "tasks": tasks, "method": method or rng.choice(METHODS), "hashseed": rng.randrange(0, 1000),
             "unbuffered": rng.random() < 0.7}
 
@@ -96,6 +103,8 @@ def _act(name):
             subprocess.run(["/bin/cat", str(_HERE / w["file"])], check=True)
         elif k == "child2":
             subprocess.run(["/bin/sh", "-c", 'cat "$0" >&2', str(_HERE / w["file"])], check=True)
+    if t["fail"] == "exit":
+        sys.exit(3)
     if t["fail"]:
         raise RuntimeError("task fails after writing")
 
@@ -142,6 +151,12 @@ def run_case(case: dict) -> dict:
         return obs
     finally:
         shutil.rmtree(d, ignore_errors=True)
+
+
+def short(x, n: int = 160) -> str:
+    """repr for messages: long payloads are abbreviated (the replay file holds the complete case)"""
+    r = repr(x)
+    return r if len(r) <= 2 * n + 40 else f"{r[:n]}…({len(r)} chars)…{r[-n:]}"
 
 
 def full(w: dict) -> str:
@@ -202,7 +217,7 @@ def oracle_c14(case: dict, obs: dict) -> list:
             if g != want[stream]:
                 foreign = [i for i, _ in extract(g) if i not in {w["id"] for w in t["writes"]}]
                 kind = "leak" if foreign else "section"
-                bad.append((kind, f"{name}/{stream} ({method}): section is {g!r} but the task wrote {want[stream]!r}"
+                bad.append((kind, f"{name}/{stream} ({method}): section is {short(g)} but the task wrote {short(want[stream])}"
                             + (f"; payloads {foreign} belong to other tasks" if foreign else "")))
         if set(got) - {"stdout", "stderr"}:
             bad.append(("stream", f"{name}: unknown section streams {sorted(got)}"))
@@ -222,13 +237,13 @@ def oracle_c14(case: dict, obs: dict) -> list:
         got_seq = extract(obs[key])
         if case["unbuffered"]:
             if got_seq != want_seq:
-                bad.append(("terminal", f"real {chan} ({method}) carries payloads {got_seq!r} but should carry {want_seq!r}"))
+                bad.append(("terminal", f"real {chan} ({method}) carries payloads {short(got_seq)} but should carry {short(want_seq)}"))
         else:
             # block-buffered original streams: Python-level text may arrive later than descriptor-level bytes
             ids_py = {i for i, _ in py_seq}
             if sorted(map(tuple, got_seq)) != sorted(map(tuple, want_seq)) or \
                     [x for x in got_seq if x[0] in ids_py] != py_seq or [x for x in got_seq if x[0] not in ids_py] != fd_seq:
-                bad.append(("terminal", f"real {chan} ({method}, buffered) carries {got_seq!r}, expected an interleaving of {py_seq!r} and {fd_seq!r}"))
+                bad.append(("terminal", f"real {chan} ({method}, buffered) carries {short(got_seq)}, expected an interleaving of {short(py_seq)} and {short(fd_seq)}"))
     return bad
 
 
@@ -281,15 +296,15 @@ def model_c14(drv, case: dict, obs: dict) -> list:
         for when, stream, text in r["sections"]:
             rsecs.append([ids[r["name"]], when, stream, text])
     if msecs != rsecs:
-        out.append(f"sections: model {msecs!r} vs implementation {rsecs!r}")
+        out.append(f"sections: model {short(msecs)} vs implementation {short(rsecs)}")
     for f, key in ((2, "term1"), (3, "term2")):
         mt = extract(uncps(ans[f][len("data="):]))
         rt = extract(obs[key])
         if case["unbuffered"]:
             if mt != rt:
-                out.append(f"{key}: model {mt!r} vs implementation {rt!r}")
+                out.append(f"{key}: model {short(mt)} vs implementation {short(rt)}")
         elif sorted(map(tuple, mt)) != sorted(map(tuple, rt)):
-            out.append(f"{key} (buffered, as multiset): model {mt!r} vs implementation {rt!r}")
+            out.append(f"{key} (buffered, as multiset): model {short(mt)} vs implementation {short(rt)}")
     return out
 
 
@@ -316,6 +331,8 @@ def corpus_c14() -> list:
         {"name": "task_t3", "fail": False, "writes": [{"kind": "os2", "id": None, "text": "", "end": "", "flush": False}]},
         {"name": "task_t4", "fail": False, "writes": [w("eprint", 10, "only stderr", "\n"), w("os2", 11, "raw stderr"), w("child2", 12, "kid stderr\n")]},
         {"name": "task_t5", "fail": True, "writes": [w("ewrite", 13, "warned, no newline")]},
+        {"name": "task_t7", "fail": "exit", "writes": [w("print", 22, "leaving through sys.exit", "\n"), w("os2", 23, "bye")]},
+        {"name": "task_t8", "fail": False, "writes": [w("print", 24, "中" * 30000, "\n"), w("os1", 25, "é" * 40001), w("eprint", 26, "x" + "😀" * 20000, "")]},
         {"name": "task_t6", "fail": False, "writes": [w("owrite", 14, "py unflushed "), w("os1", 15, "fd "), w("owrite", 16, "py again"),
                                                        w("child1", 17, "kid"), w("print", 18, "tail", "\n"),
                                                        w("ewrite", 19, "e-py "), w("os2", 20, "e-fd "), w("ewrite", 21, "e-py2")]},
@@ -428,6 +445,41 @@ def task_closer(produces=Path("c.txt")):
 def task_after(path=Path("c.txt")):
     print("after")
 ''', "6::1.2", {"task_closer": 1, "task_after": 2}),
+    "marked": ("task_marked.py", '''\
+from pathlib import Path
+
+import pytask
+
+_HERE = Path(__file__).parent
+
+
+@pytask.mark.try_first
+def task_a(produces=Path("ma.txt")):
+    print("a runs")
+    if (_HERE / "ctl.txt").exists() and (_HERE / "ctl.txt").read_text() == "fail":
+        raise RuntimeError("a fails in this build")
+    produces.write_text("a")
+
+
+@pytask.mark.try_last
+def task_b(path=Path("ma.txt"), produces=Path("mb.txt")):
+    print("b runs")
+    produces.write_text(path.read_text() + "b")
+
+
+@pytask.mark.skipif(False, reason="never")
+def task_c(produces=Path("mc.txt")):
+    print("c runs")
+    produces.write_text("c")
+
+
+@pytask.mark.mine
+def task_d(path=Path("mc.txt")):
+    print("d runs")
+''', "7::1.2.3.4", {"task_a": 1, "task_b": 2, "task_c": 3, "task_d": 4}),
+    "empty": ("task_empty.py", '''\
+HELPER = 1
+''', "8::", {}),
     "cyc": ("task_cyc.py", '''\
 from pathlib import Path
 
@@ -444,7 +496,7 @@ def task_y(path=Path("x.txt"), produces=Path("y.txt")):
 
 def write_seq_project(root: Path) -> None:
     root.mkdir(parents=True, exist_ok=True)
-    (root / "pyproject.toml").write_text("[tool.pytask.ini_options]\n")
+    (root / "pyproject.toml").write_text('[tool.pytask.ini_options]\nmarkers = {mine = "a marker of this project"}\n')
     for sub, (fname, src, _, _) in SUBS.items():
         (root / sub).mkdir()
         (root / sub / fname).write_text(src)
@@ -453,13 +505,24 @@ def write_seq_project(root: Path) -> None:
 def gen_seq(rng, idx: int, n=(2, 8)) -> dict:
     builds = []
     for _ in range(rng.randint(*n)):
-        sub = rng.choice(["ok", "ok", "dec", "fail", "badimp", "cyc"])
+        sub = rng.choice(["ok", "ok", "dec", "fail", "badimp", "cyc", "marked", "marked", "marked", "empty"])
         kw = {"capture": rng.choice(METHODS), "verbose": rng.choice([0, 1, 1, 2])}
         r = rng.random()
         if r < 0.2:
             kw["dry_run"] = True
         elif r < 0.45:
             kw["force"] = True
+        extra = {}
+        if sub == "marked":
+            # tasks that carry pytask marks: selections, dry runs, a task failing in one build and passing in the next
+            r2 = rng.random()
+            if r2 < 0.25:
+                kw["expression"] = rng.choice(["task_a", "task_b or task_c", "not task_a"])
+            elif r2 < 0.45:
+                kw["marker_expression"] = rng.choice(["mine", "try_first", "not try_last"])
+            extra["ctl"] = "fail" if rng.random() < 0.25 else "ok"
+        if rng.random() < 0.07:
+            extra["corrupt_db"] = True   # configuration fails in database.pytask_post_parse
         if rng.random() < 0.2:
             kw["show_locals"] = True
         if rng.random() < 0.2:
@@ -468,7 +531,7 @@ def gen_seq(rng, idx: int, n=(2, 8)) -> dict:
             kw["show_capture"] = rng.choice(["no", "stdout", "stderr"])
         if rng.random() < 0.08:
             kw["capture"] = "bogus"   # configuration fails in pytask_parse_config
-        builds.append({"sub": sub, "kw": kw})
+        builds.append({"sub": sub, "kw": kw, **extra})
     if rng.random() < 0.3:
         # a task that closes sys.stdout while it is captured; last build of the process (it may wreck the interpreter's streams),
         # never with capture=no (there it would close the caller's own stream)
@@ -561,7 +624,7 @@ def oracle_c15(seq: dict, obs: dict) -> list:
     bad = []
     imported = set()           # sub-projects whose module this process has imported (F7: sys.modules keeps it)
     for k, (b, rec) in enumerate(zip(seq["builds"], obs["inproc"]["builds"])):
-        tag = f"build {k} ({b['sub']}, {b['kw']})"
+        tag = f"build {k} ({b['sub']}, {b['kw']}" + (f", ctl={b['ctl']}" if "ctl" in b else "") + (", corrupt database" if b.get("corrupt_db") else "") + ")"
         cls = closer_class(b, rec)
         if "raised" in rec:
             bad.append(("returns", f"{tag}: pytask.build raised {rec['raised']}", cls))
@@ -581,6 +644,13 @@ def oracle_c15(seq: dict, obs: dict) -> list:
         for key, what in (("cwd", "working directory"), ("filters", "warnings.filters"), ("set_trace_same", "pdb.set_trace"),
                           ("collected", "COLLECTED_TASKS"), ("prov", "TASKS_WITH_PROVISIONAL_NODES"), ("pdb_saved", "PytaskPDB._saved"),
                           ("report_vars", "ExecutionReport/Traceback class variables")):
+            if key == "report_vars":
+                # claimed only for builds that passed configuration (pytask_unconfigure ran): then they are back at the defaults,
+                # whatever an earlier build with a failing configuration left behind
+                if configured and aft[key] != obs["inproc"]["initial"][key]:
+                    bad.append(("misc", f"{tag}: {what} are {aft[key]!r} after the build, defaults {obs['inproc']['initial'][key]!r}",
+                                cls if cls == "F6c" else None))
+                continue
             if aft[key] != bef[key]:
                 # F6c: the exception escapes before pytask_unconfigure runs, so nothing is restored
                 bad.append(("misc", f"{tag}: {what} changed: {bef[key]!r} -> {aft[key]!r}", cls if cls == "F6c" else None))
@@ -632,7 +702,7 @@ def model_c15(drv, seq: dict, obs: dict) -> list:
         sub = b["sub"]
         _, _, modspec, fnids = SUBS[sub]
         method = b["kw"]["capture"]
-        cfgfail = method == "bogus"
+        cfgfail = method == "bogus" or bool(b.get("corrupt_db"))
         ios = []
         for name, outcome in rec["reports"]:
             ph = ["s~"]
@@ -641,7 +711,7 @@ def model_c15(drv, seq: dict, obs: dict) -> list:
             if outcome == "SUCCESS":
                 ph.append("t~")
             ios.append("/".join([str(fnids.get(name, 99))] + ph))
-        ans = drv.ask(f"capture.build method={'fd' if cfgfail else method} mods={modspec} ios={'|'.join(ios)} cfgfail={1 if cfgfail else 0}")
+        ans = drv.ask(f"capture.build method={'fd' if method == 'bogus' else method} mods={modspec} ios={'|'.join(ios)} cfgfail={'db' if b.get('corrupt_db') else (1 if cfgfail else 0)}")
         m = re.match(r"fault=(\d) secs=(\S*) tasks=(\S*) collectfailed=(\d)$", ans)
         if not m:
             out.append(f"driver answered {ans!r}")
@@ -674,6 +744,9 @@ def model_c15(drv, seq: dict, obs: dict) -> list:
             "settrace": ms["settrace"] == "0", "collected": int(ms["collected"]), "pdbsaved": int(ms["pdbsaved"]), "prov": int(ms["prov"]),
             "filters": ms["filters"] == m0["filters"], "reportvars": ms["reportvars"] == "0",
         }
+        if rec.get("exit") == 2:
+            # class variables set by logging.pytask_post_parse are claimed (and modelled) only for builds that passed configuration
+            real.pop("reportvars"); model.pop("reportvars")
         if real != model:
             diff = {key: (model[key], real[key]) for key in real if real[key] != model[key]}
             out.append(f"{tag}: process state after the build, (model, implementation): {diff}")
@@ -681,7 +754,7 @@ def model_c15(drv, seq: dict, obs: dict) -> list:
 
 
 def canon_c15(seq: dict) -> list:
-    return [[b["sub"], sorted(b["kw"].items())] for b in seq["builds"]] + (["tty"] if seq.get("tty") else [])
+    return [[b["sub"], sorted(b["kw"].items()), b.get("ctl"), bool(b.get("corrupt_db"))] for b in seq["builds"]] + (["tty"] if seq.get("tty") else [])
 
 
 def corpus_c15() -> list:
@@ -692,6 +765,14 @@ def corpus_c15() -> list:
         return {"sub": sub, "kw": kw}
     return [
         {"idx": -1, "hashseed": 1, "builds": [b("ok", force=True)] * 6},                                   # F6 witness (fixed): leak trend, stdin
+        # F30 witness (fixed by b7e10b4): marks appended during a build stayed on the function
+        {"idx": -9, "hashseed": 9, "builds": [b("marked", capture="no", dry_run=True), b("marked", capture="no"),
+                                               b("marked", capture="no", expression="task_a", force=True), b("marked", capture="no", force=True)]},
+        {"idx": -10, "hashseed": 10, "builds": [dict(b("marked", capture="sys"), ctl="fail"), dict(b("marked", capture="sys"), ctl="ok"),
+                                                b("marked", capture="fd", marker_expression="mine", force=True), b("marked", capture="fd", force=True)]},
+        # builds that end before any task starts, under capture=fd; a failing create_database
+        {"idx": -11, "hashseed": 11, "builds": [b("ok"), b("cyc"), b("badimp"), b("empty"), dict(b("ok"), corrupt_db=True),
+                                                dict(b("ok", capture="sys"), corrupt_db=True), b("empty", capture="sys")]},
         {"idx": -8, "hashseed": 8, "tty": True, "builds": [b("ok", capture="no", force=True), b("fail", capture="no"), b("cyc", capture="no"),
                                                             b("ok", capture="fd", force=True, verbose=2), b("badimp", capture="no")]},
         {"idx": -5, "hashseed": 5, "builds": [b("ok", capture="sys"), b("closer", capture="sys", force=True)]},
